@@ -26,7 +26,10 @@ def menu(seq):
     c2 = worlds.snv(seq, 330, None, "rs330", "functional")
     s1 = worlds.snv(seq, 230, None, "rs230")
     s2 = worlds.snv(seq, 520, None, "rs520")
-    return [c1, c2, s1, s2]
+    # index 4: the variant of index 1 WITHOUT a function label - re-curated databases disagree about a variant
+    # (never used together with index 1 in one table)
+    c2s = worlds.snv(seq, 330, None, "rs330")
+    return [c1, c2, s1, s2, c2s]
 
 
 def suffix_mutations(sfx, seq):
@@ -127,9 +130,13 @@ class C09(Check):
                         continue
                     yield ("table", tuple((n, v, l, None) for n, v, l in zip(names, vs, labs)))
         sets = [tuple(c) for k in range(0, 4) for c in itertools.combinations(range(4), k)]
+        sets4 = [tuple(4 if i == 1 else i for i in c) for c in sets if 1 in c]     # the same subsets with the unlabelled twin
         for nm in itertools.combinations(NAMES, 2):
             for vs in itertools.product(sets, repeat=2):
                 yield ("table", tuple((n, v, None, None) for n, v in zip(nm, vs)))
+            for vs in itertools.product(sets4, repeat=2):
+                if (hash(vs) + self.seed) % (4 if self.tier == "quick" else 1) == 0:
+                    yield ("table", tuple((n, v, None, None) for n, v in zip(nm, vs)))
 
     def successors(self, st):
         if st[0] != "table":
@@ -157,7 +164,11 @@ class C09(Check):
             for n in NAMES:
                 if n in used or n < table[-1][0]:
                     continue
-                for v in ((), (0,), (0, 2), (1,), (2,), (0, 1)):
+                for v in ((), (0,), (0, 2), (1,), (2,), (0, 1), (4,), (0, 4)):
+                    if 4 in v and any(1 in x[1] for x in table):
+                        continue
+                    if 1 in v and any(4 in x[1] for x in table):
+                        continue
                     k += 1
                     if k % step == self.seed % step:
                         yield (f"allele {n}", ("table", table + ((n, v, None, None),)))
